@@ -184,7 +184,7 @@ Print Assumptions C06_history_csp_hits.
 
 Theorem C06_history_generic_hide : forall h om pm pr, In 0 pr -> forall ops,
   id_inj (loaded ops) -> TG h (rmatch om pm) pr (loaded ops) -> (forall g, In g (loaded ops) -> wfp g = true) ->
-  generic_hide_hit (rmatch om pm) pr (hrun h ops) = spec_generic_hide (rmatch om pm) (loaded ops).
+  generic_hide_hit (rmatch om pm) pr (hrun h ops) = spec_generic_hide (rmatch om pm) (loaded ops) (tagset ops).
 Proof. exact history_generic_hide. Qed.
 Print Assumptions C06_history_generic_hide.
 
